@@ -10,7 +10,10 @@
 (*       "=" stands for one documentation prefix `name=`.                   *)
 (* base kinds: "ident" (nm), "int" (v), "sym" (e: expression tree),         *)
 (*       "empty" (nothing after the modifiers), "dots" ("..."),             *)
-(*       "comma" (two axes separated by a comma - the common mistake).      *)
+(*       "comma" (two axes separated by a comma - the common mistake),      *)
+(*       "trailhash" (an axis followed by '#': the pre-0.1.0 spelling).     *)
+(* A token whose TEXT ends in '#' is illegal; for a token without a base    *)
+(* that is the case exactly when '#' is the modifier written last.          *)
 (*                                                                         *)
 (* The meaning is a function of the SET of modifiers: order is free.       *)
 (***************************************************************************)
@@ -49,6 +52,7 @@ ParseTok(t) ==
   IN
   IF HasDup(t.mods) THEN Bad("repeated modifier")
   ELSE IF k = "comma" THEN Bad("comma")
+  ELSE IF k = "trailhash" \/ (k = "empty" /\ t.mods # << >> /\ t.mods[Len(t.mods)] = "#") THEN Bad("trailing #")
   ELSE IF k = "dots" THEN (IF M = {} THEN Ok(AnonVar)
                             \* "name=" prefixes are ignored / "..." takes no modifiers: not decided
                             ELSE IF M = {"="} THEN Unspec(AnonVar)
@@ -92,9 +96,10 @@ VarIndex(dims) == IF \E i \in DOMAIN dims : IsVariadic(dims[i])
 Perms(s) == {p \in [DOMAIN s -> DOMAIN s] : \A i, j \in DOMAIN s : i # j => p[i] # p[j]}
 Permuted(s, p) == [i \in DOMAIN s |-> s[p[i]]]
 
-OrderFree(t) == \A p \in Perms(t.mods) :
+\* (a token that consists of modifiers only has no documented meaning, and whether its text ends in '#' depends on the order)
+OrderFree(t) == t.base.k # "empty" => \A p \in Perms(t.mods) :
                    ParseTok(Tok(Permuted(t.mods, p), t.base)) = ParseTok(t)
 Without(s, x) == SelectSeq(s, LAMBDA y : y # x)
-EqNeutral(t) == (~HasDup(t.mods) /\ t.base.k # "dots") => ParseTok(Tok(Without(t.mods, "="), t.base)) = ParseTok(t)
+EqNeutral(t) == (~HasDup(t.mods) /\ t.base.k \notin {"dots", "empty"}) => ParseTok(Tok(Without(t.mods, "="), t.base)) = ParseTok(t)
 Total(t) == ParseTok(t).ok \in BOOLEAN
 =============================================================================
